@@ -392,6 +392,13 @@ def h_call_action(eng):
                order == ["create_task", "store_ctx"] + (["task_unique"] if uniq != "none" else []))
 
 
+def bounded_dual(seed_base, programs):
+    def run(seed):
+        from replay.native import run_native
+        return run_native("cx_dual_bounded", {"seed": seed_base + seed, "programs": programs}, timeout=1500)
+    return run
+
+
 def harnesses():
     hs = []
     for kind, path in (("Event", EV_PY), ("Mqtt", MQ_PY), ("Webhook", WH_PY)):
@@ -405,4 +412,7 @@ def harnesses():
                                  (D_PY, "FunctionDecoratorManager.dispatch"), (D_PY, "FunctionDecoratorManager._call"),
                                  (f"{PKG}/decorators/base.py", "ExpressionDecorator.check_expression_vars")]))
     hs.append(Harness("TrigInfo.call_action", h_call_action, units=[(T_PY, "TrigInfo.call_action")]))
+    hs.append(Harness("bounded.dual-subsystems", bounded_dual(500, 100), units=[(T_PY, "TrigInfo.trigger_watch"), (D_PY, "FunctionDecoratorManager.dispatch")], kind="bounded"))
+    for k in range(1, 5):
+        hs.append(Harness(f"bounded.dual-subsystems[thorough {k}/4]", bounded_dual(500 + 10 * k, 300), units=[(T_PY, "TrigInfo.trigger_watch"), (D_PY, "FunctionDecoratorManager.dispatch")], kind="bounded", tier="thorough"))
     return hs
